@@ -191,8 +191,13 @@ class TriggerHandler:
     def __actions_for_location(self, event, file, line, function, frame):
         actions = []
         for trigger in self._tp_config:
-            if trigger.at_location(event, file, line, function, frame):
-                actions += trigger.actions
+            try:
+                if trigger.at_location(event, file, line, function, frame):
+                    actions += trigger.actions
+            except Exception:
+                # a location that cannot be tested (e.g. the source of the frame cannot be loaded to find an unnamed
+                # method) is the problem of that tracepoint only: the others at this location still act
+                logging.debug("Cannot test location of %s", trigger)
         return actions
 
     def __process_call_backs(self, ctx: 'TriggerContext', arg: any, frame: FrameType, event: str, file: str, line: int,
